@@ -597,8 +597,33 @@ func gen(t *rapid.T) Case {
 		BigSizes: rapid.IntRange(0, 5).Draw(t, "bigSizes") == 0}
 	u := tm.GenUniverse(t, cfg)
 	addDefaults(t, u)
+	// in a quarter of the cases the root struct starts with a long list of small i64: its Thrift form is four times its JSON
+	// form, so the converter's output buffer (sized by the document) has to grow while the root struct is open
+	var expand *tm.FieldDef
+	if u.Root.K == tm.STRUCT && rapid.IntRange(0, 3).Draw(t, "expand") == 0 {
+		sd := u.Struct(u.Root.Ref)
+		id := int16(1)
+		for sd.Field(id) != nil {
+			id++
+		}
+		sd.Fields = append(sd.Fields, tm.FieldDef{ID: id, Name: "zz_expand", Req: tm.ReqOptional, T: &tm.Type{K: tm.LIST, Elem: &tm.Type{K: tm.I64}}})
+		expand = &sd.Fields[len(sd.Fields)-1]
+	}
 	v := tm.GenValue(t, u, u.Root, cfg)
 	dropFields(t, v, rapid.IntRange(0, 2).Draw(t, "dropRequired") == 0)
+	if expand != nil {
+		l := &tm.Value{K: tm.LIST, ET: tm.I64}
+		for i, n := 0, rapid.IntRange(40, 700).Draw(t, "expandLen"); i < n; i++ {
+			l.Elems = append(l.Elems, &tm.Value{K: tm.I64, I: int64(i % 10)})
+		}
+		fs := []tm.FieldVal{{ID: expand.ID, V: l}}
+		for _, f := range v.Fields {
+			if f.ID != expand.ID {
+				fs = append(fs, f)
+			}
+		}
+		v.Fields = fs
+	}
 	cs := Case{U: u, V: v, O: o}
 	doc := tjson.Write(t, v, u.Root, u, tjson.WOpts{Nulls: rapid.Bool().Draw(t, "nulls"), NullAny: true, Unknown: rapid.IntRange(0, 2).Draw(t, "unknowns") == 0}, rapid.Bool().Draw(t, "variants"))
 	// null members stand for absent fields; null map values drop the entry: the denoted value is what both directions are judged against
@@ -623,7 +648,7 @@ func gen(t *rapid.T) Case {
 func Prop(name string) pbt.Prop[Case] {
 	return pbt.Prop[Case]{
 		Name:  name,
-		Rule:  "generated IDL with any mix of requiredness and scalar defaults at any depth (ids beyond 64/256/32767, recursion) parsed with SetOptionalBitmap x UseDefaultValue; inputs presenting any subset of the fields (absent, null, present; required ones may be missing; unknown members / undeclared wire fields) x all 2^4 combinations of WriteRequireField/WriteDefaultField/WriteOptionalField/DisallowUnknownField (generic: WriteDefault/NotCheckRequireNess/DisallowUnknow), in a third of the cases installed through SetOptions on converters created with another combination; j2t in a third of the cases through DoInto with a caller buffer of 0..256 bytes (grown while structs are open); the harness's truth-table model gives, per struct instance, the error or the exact set of fields with their values (present ones unchanged, absent ones filled with the parsed default or the zero value); j2t output, t2j output and generic MarshalTo onto an equal separately parsed descriptor are decoded and compared field by field (order of members free); error codes ErrMissRequiredField / ErrUnknownField; non-trivial = some declared field absent",
+		Rule:  "generated IDL with any mix of requiredness and scalar defaults at any depth (ids beyond 64/256/32767, recursion) parsed with SetOptionalBitmap x UseDefaultValue; inputs presenting any subset of the fields (absent, null, present; required ones may be missing; unknown members / undeclared wire fields) x all 2^4 combinations of WriteRequireField/WriteDefaultField/WriteOptionalField/DisallowUnknownField (generic: WriteDefault/NotCheckRequireNess/DisallowUnknow), in a third of the cases installed through SetOptions on converters created with another combination; in a quarter of the cases the document starts with a list of 40..700 one-digit i64 (output four times the input: the output buffer grows while structs are open); j2t in a third of the cases through DoInto with a caller buffer of 0..256 bytes (grown while structs are open); the harness's truth-table model gives, per struct instance, the error or the exact set of fields with their values (present ones unchanged, absent ones filled with the parsed default or the zero value); j2t output, t2j output and generic MarshalTo onto an equal separately parsed descriptor are decoded and compared field by field (order of members free); error codes ErrMissRequiredField / ErrUnknownField; non-trivial = some declared field absent",
 		Gen:   gen,
 		Check: check,
 	}
